@@ -28,7 +28,7 @@ class C19(pure.Spec):
                 "C19_no_request_lost", "C19_good_connection_serves_all", "C19_client_never_panics"]
     crate = "app"
     binary = "vh-app"
-    design_ref = "DESIGN.md §4 C19"
+    design_ref = "DESIGN.md §5 C19"
     rule = ("(1) penguin_mux::timing::Backoff driven directly: every (initial 0..4, max 0..9, mult 0..3, max_count 0..4) ns "
             "tuple x three advance/reset patterns exhaustively, plus random tuples up to Duration::MAX and u32::MAX "
             "(overflow panics included), results compared exactly with Client/Backoff.v. (2) the real client_main_inner "
